@@ -771,9 +771,17 @@ func outermost(fn *ssa.Function) *ssa.Function {
 // closuresIn returns all anonymous functions nested (at any depth) in fn.
 func closuresIn(fn *ssa.Function) []*ssa.Function {
 	var out []*ssa.Function
-	for _, a := range fn.AnonFuncs {
-		out = append(out, a)
-		out = append(out, closuresIn(a)...)
+	fns := []*ssa.Function{fn}
+	for _, m := range loadedModules {
+		if m.Prog == fn.Prog {
+			fns = m.body(fn) // with the helpers spliced into fn
+		}
+	}
+	for _, f := range fns {
+		for _, a := range f.AnonFuncs {
+			out = append(out, a)
+			out = append(out, closuresIn(a)...)
+		}
 	}
 	return out
 }
@@ -782,7 +790,7 @@ func closuresIn(fn *ssa.Function) []*ssa.Function {
 // callee inside fn.
 func (m *Module) closureArgOf(fn *ssa.Function, callee *ssa.Function, argIdx int) []*ssa.Function {
 	var out []*ssa.Function
-	for _, b := range fn.Blocks {
+	for _, b := range m.blocksOf(fn) {
 		for _, in := range b.Instrs {
 			if !m.callsTo(in, callee) {
 				continue
